@@ -14,8 +14,10 @@ func (b *Bounds) Extend(b2 *Bounds) {
 	if b2 == nil {
 		return
 	}
-	b.extendPoint(b2.Min)
-	b.extendPoint(b2.Max)
+	b.Min.X = math.Min(b.Min.X, b2.Min.X)
+	b.Min.Y = math.Min(b.Min.Y, b2.Min.Y)
+	b.Max.X = math.Max(b.Max.X, b2.Max.X)
+	b.Max.Y = math.Max(b.Max.Y, b2.Max.Y)
 }
 
 // NewBounds initializes a new bounds object.
